@@ -114,7 +114,7 @@ func TestVProtoSkiplistExplore(t *testing.T) {
 		rng := rand.New(rand.NewPCG(seed, uint64(round)))
 		l := NewSkiplist(newArena(4<<20), bytes.Compare)
 		l.testing = round%2 == 0
-		// key sets: every key has one owner thread; ~25% of the keys are also given to a second thread (duplicates)
+		// key sets: every key has one owner thread; a third of the keys of odd threads are also given to a second odd thread (duplicates)
 		per := make([][]int, threads)
 		style := round % 3
 		for k := 0; k < nkeys; k++ {
@@ -128,9 +128,11 @@ func TestVProtoSkiplistExplore(t *testing.T) {
 				owner = (k * threads / nkeys)
 			}
 			per[owner] = append(per[owner], k)
-			if rng.IntN(4) == 0 {
-				o2 := rng.IntN(threads)
-				if o2 != owner {
+			// duplicates only among threads that call Skiplist.Add directly (odd threads): an Inserter's cached
+			// splice has its own duplicate probe (TestVProtoSkiplistInserterProbe)
+			if owner%2 == 1 && rng.IntN(3) == 0 {
+				o2 := 2*rng.IntN(threads/2) + 1
+				if o2 != owner && o2 < threads {
 					per[o2] = append(per[o2], k)
 				}
 			}
@@ -222,5 +224,59 @@ func TestVProtoSkiplistExplore(t *testing.T) {
 	st, _ := json.Marshal(map[string]any{"rounds": rounds, "threads": threads, "keys": nkeys, "readers": readers, "adds": totalAdds,
 		"adds_exists": dupAdds, "scans": totalScans, "scans_during_inserts": contended})
 	fmt.Printf("DRIVER-STATS %s\n", st)
+	fmt.Printf("DRIVER-DONE\n")
+}
+
+// TestVProtoSkiplistInserterProbe: sequential Adds through ONE Inserter (cached splice), every sequence of
+// VERIF_PROBE_LEN adds over 3 keys.  Same record as a round of the concurrent driver, but with op names
+// "padds" / "pfinal" so that TLC reports each rejected sequence instead of stopping at the first.
+func TestVProtoSkiplistInserterProbe(t *testing.T) {
+	out := os.Getenv("VERIF_OUT")
+	if out == "" {
+		t.Skip("VERIF_OUT not set")
+	}
+	ln := 4
+	if v, err := strconv.Atoi(os.Getenv("VERIF_PROBE_LEN")); err == nil {
+		ln = v
+	}
+	f, err := os.Create(out + "/skl_probe.ndjson")
+	if err != nil {
+		t.Fatal(err)
+	}
+	w := bufio.NewWriter(f)
+	n := 1
+	for i := 0; i < ln; i++ {
+		n *= 3
+	}
+	for id := 0; id < n; id++ {
+		l := NewSkiplist(newArena(1<<16), bytes.Compare)
+		var ins Inserter
+		list := [][5]int{}
+		x := id
+		for i := 0; i < ln; i++ {
+			k := 2 * (x % 3) // ranks 0, 2, 4: distinct user keys
+			x /= 3
+			err := ins.Add(l, vProtoSkKey(k), []byte("v"))
+			res := 1
+			if err == ErrRecordExists {
+				res = 0
+			} else if err != nil {
+				res = -1
+			}
+			list = append(list, [5]int{0, k, res, 2*i + 1, 2*i + 2})
+		}
+		lv, blv := vProtoSkLevels(l)
+		for _, ev := range []map[string]any{
+			{"op": "padds", "id": id, "list": list},
+			{"op": "pfinal", "id": id, "fwd": vProtoSkScanOnce(l, true, 1<<20), "bwd": vProtoSkScanOnce(l, false, 1<<20), "lv": lv, "blv": blv},
+		} {
+			b, _ := json.Marshal(ev)
+			w.Write(b)
+			w.WriteByte('\n')
+		}
+	}
+	w.Flush()
+	f.Close()
+	fmt.Printf("DRIVER-STATS {\"probe_sequences\": %d}\n", n)
 	fmt.Printf("DRIVER-DONE\n")
 }
